@@ -77,6 +77,17 @@ def plan_st(draw, tier):
                     row[col] = row[col] * f
         for row in q:
             row[col] = row[col] * f
+    if not scale and draw(st.integers(0, 5)) == 0:
+        # one feature on a much larger scale than the others (amounts next to flags): X'X + lambda*I is then badly
+        # conditioned; the comparison tolerance follows the condition number
+        col = draw(st.integers(0, h.d - 1))
+        f = draw(st.sampled_from([1e3, 1e4]))
+        for op in ops_:
+            if op[0] in ("fit", "partial_fit"):
+                for row in op[3]:
+                    row[col] = row[col] * f
+        for row in q:
+            row[col] = row[col] * f
     return {"config": cfg, "ops": ops_, "query": q}
 
 
@@ -148,11 +159,13 @@ def evaluate(plan, ctx):
             lib_bonus_known = None
         mean = Qa @ beta
         sig = np.sqrt(np.maximum(np.sum((Qa @ A_inv) * Qa, axis=1), 0.0))
+        # relative tolerance: 1e-6, widened with the condition number of the arm's normal equations
+        rel = max(1e-6, 1e3 * float(np.linalg.cond(np.linalg.inv(A_inv))) * 2.2e-16) if len(X) else 1e-6
         for i in range(m):
             if got_rows[i][j][0] != a:
                 raise Violation("keys", "row %d: key %r at position %d, expected arm %r" % (i, got_rows[i][j][0], j, a))
             g = got_rows[i][j][1]
-            tol = 1e-6 * max(1.0, abs(mean[i]), ymax)
+            tol = rel * max(1.0, abs(mean[i]), ymax, alpha * sig[i])
             if name == "LinGreedy":
                 want = mean[i]
                 ok = abs(g - want) <= tol
